@@ -151,10 +151,10 @@ DescsOf(fam, i1) ==
                         \cup (IF i1 = 1 THEN {WithBase(MkBin(<<>>), 1, PrimSeq[s]) : s \in 1..NPrim} ELSE {})
     [] fam = "prim2" -> UNION {LET d == MkBin(<<BinOpSeq[i1], BinOpSeq[j]>>) IN
                                {WithBase(d, q, PrimSeq[s]) : q \in PrePositions(d), s \in 1..NPrim} : j \in 1..NB}
-    [] fam = "prim3" -> {LET d == MkBin(<<BinOpSeq[i1], BinOpSeq[x[1]], BinOpSeq[x[2]]>>) IN
-                         IF IsTyPos(d, x[3]) THEN d ELSE WithBase(d, x[3], PrimSeq[x[4]]) :
+    [] fam = "prim3" -> {WithBase(MkBin(<<BinOpSeq[i1], BinOpSeq[x[1]], BinOpSeq[x[2]]>>), x[3], PrimSeq[x[4]]) :
                            x \in {y \in (1..NB) \X (1..NB) \X (1..4) \X (1..NPrim) :
-                                   (i1 + y[1] + y[2] + y[3] + y[4] + (Seed % 1000)) % PMod = 0}}
+                                   /\ (i1 + y[1] + y[2] + y[3] + y[4] + (Seed % 1000)) % PMod = 0
+                                   /\ ~IsTyPos(MkBin(<<BinOpSeq[i1], BinOpSeq[y[1]], BinOpSeq[y[2]]>>), y[3])}}
     [] fam = "preprim" -> {WithPre(WithBase(MkBin(<<>>), 1, PrimSeq[s]), 1, <<PreSeq[i1]>>) : s \in 1..NPrim}
                           \cup UNION {LET d == MkBin(<<BinOpSeq[j]>>) IN
                                       {WithPre(WithBase(d, q, PrimSeq[s]), q, <<PreSeq[i1]>>) : q \in PrePositions(d), s \in 1..NPrim} :
